@@ -823,8 +823,14 @@ def form_line(case):
     return proto.line(Atom('C20'), Atom('fill'), cfg, [w_event(e) for e in G.flatten(case['doc'])])
 
 
+def spec_line(case):
+    cfg = [N if case.get('name') is None else case['name'], N if case.get('id') is None else case['id'],
+           B(case.get('passwords', False)), [[k, w_val(v)] for k, v in case['data']]]
+    return proto.line(Atom('C20'), Atom('fillspec'), cfg, [w_event(e) for e in G.flatten(case['doc'])])
+
+
 def form_model_answer(ans):
-    if ans in ('err', 'unmodelled', 'bad-op', 'bad-line'):
+    if ans in ('err', 'unmodelled', 'outside', 'bad-op', 'bad-line'):
         return ans
     v = proto.dec(ans)
     return ['ok', [u_event(e) for e in v[1]]]
@@ -840,6 +846,11 @@ def compare(items, res):
             model = 'undecodable: %s: %s' % (type(e).__name__, ans[:200])
         if model == 'unmodelled':
             res.count('model:unmodelled')
+            continue
+        if model == 'outside' and case.get('kind') == 'formx':
+            # the documentation semantics claims nothing outside `okForest` (the recorded findings);
+            # for kind `form` (inside the hypotheses of the oracle) `outside` is a disagreement
+            res.count('spec:outside-okForest')
             continue
         res.streams[stream] = res.streams.get(stream, 0) + 1
         if model != real:
@@ -913,6 +924,7 @@ def process(cases, res):
                 st, out = run_filler(c)
                 res.count('formx-status:' + (st if st == 'ok' else 'err:' + out))
                 items.append((c, 'forms-outside-oracle', form_line(c), ['ok', out] if st == 'ok' else 'err', form_model_answer))
+                items.append((c, 'formspec-outside-oracle', spec_line(c), ['ok', out] if st == 'ok' else 'err', form_model_answer))
             elif c['kind'] == 'chain':
                 real = run_real(c['doc'], c['ops'])
                 f = oracle_chain(c, real)
@@ -940,6 +952,7 @@ def process(cases, res):
                     res.nontrivial.add(json.dumps([c['doc'], c['data']], sort_keys=True))
                 res.count('form-status:' + (st if st == 'ok' else 'err:' + out))
                 items.append((c, 'forms', form_line(c), ['ok', out] if st == 'ok' else 'err', form_model_answer))
+                items.append((c, 'formspec', spec_line(c), ['ok', out] if st == 'ok' else 'err', form_model_answer))
             else:
                 f = oracle_other(c)
                 res.count('other:' + c['filter'])
